@@ -10,6 +10,8 @@ lake build LdarModel || { echo "setup: library build failed"; exit 1; }
 # layer-3 tie of the emission classes: generated from the source; a failure is reported by C02-C04/C11
 lake build LdarModel.Props.EmissionTie LdarModel.Props.EmissionOnSource >/dev/null 2>&1 || echo "setup: emission tie did not build (C01-C04/C10/C11 will report it)"
 lake build LdarModel.Props.CrewTie >/dev/null 2>&1 || echo "setup: crew tie did not build (C07/C08/C10 will report it)"
+lake build LdarModel.Props.PlannerTie >/dev/null 2>&1 || echo "setup: planner tie did not build (C06 will report it)"
+lake build LdarModel.Props.FollowUpTie >/dev/null 2>&1 || echo "setup: follow-up tie did not build (C09 will report it)"
 exes=$(grep -E '^name = "drv_' lakefile.toml | sed 's/name = "\(.*\)"/\1/')
 for e in $exes; do
   lake build "$e" >/dev/null 2>&1 || echo "setup: driver $e did not build (its check will report it)"
